@@ -21,7 +21,7 @@ PROPS = {
                     "target": {"6": "a REAL gRPC target (grpc-go server behind an AdaptedClientConn) observed no deadline, or a later one, although the client sent a grpc-timeout (or observed one without)"},
                     "forward": FWD_REASONS},
         "rule": "target: transcoded HTTP calls with grpc-timeout 200 ms..60 s (and without), with and without another (filtered) header, through a real AdaptedClientPool connection to a grpc-go server on bufconn whose handler records the deadline of its stream context; decode: shape sweep (length 0..10 x final byte 0..255 x digit classes x one intruder at every position) + random strings; "
-                "non-trivial = string of length>=2 ending in one of HMSmun; distinct by full case text",
+                "non-trivial = string of length>=2 ending in one of HMSmun; distinct by full case text; enforce: 5 entry points x idle / unreachable / mid-stream, plus (HTTP entries) a stalled client whose response writer blocks and a stalled upload of undeclared length whose first byte never comes",
         "level_text": "Coq theorems: the decoder accepts exactly the gRPC timeout grammar and yields digits*unit (saturating at int64); the regenerated unit table equals the spec table. Tied to the code by an exact differential on ~27k strings per run. Enforcement part (deadline wins, never forwarded) proved on the forwarder LTS; wall-clock margin is measured only (partial).",
         "level_note": "Trusted: Coq kernel, extraction (ExtrOcamlBasic), modelrun, the Go harness and export shim, strconv.ParseUint as modelled. The model is hand-written; the tie is the differential run.",
         "design_ref": "DESIGN.md §3 C12",
@@ -53,7 +53,7 @@ PROPS["C19"] = {
                             "2": "param[...] key left in (or ordinary parameter missing from) the parameters bound to the message",
                             "3": "a metadata entry of the query with a valid key and a printable value did not become request metadata (lost or duplicated; entries whose keys differ only in letter case must be merged)"}},
     "rule": "dispatch: header lines for Connection/Upgrade/Sec-WebSocket-Protocol/Content-Type drawn from pools of exact, mixed-case, token-list, multi-line, near-miss values, parsed by http.ReadRequest, served by WebBridge.ServeHTTP with a recording router; "
-            "non-trivial = Connection or Content-Type present. mdquery: random url.Values mixing param[key] entries (valid/invalid keys, printable/control/non-ASCII values) with ordinary parameters; non-trivial = at least one param[...] key",
+            "non-trivial = Connection or Content-Type present. mdquery: random url.Values mixing param[key] entries (valid/invalid keys, printable/control/non-ASCII values) with ordinary parameters; non-trivial = at least one param[...] key; the Content-Type lattice includes parameter sections a MIME parser rejects (bare, empty, duplicate parameter, unterminated quote)",
     "level_text": "Coq theorems: dispatch equals the RFC 7230 token-list semantics stated relationally (comma-split, OWS-trim, case-insensitive; exact sub-protocol match; lower-cased media type prefix), for all header multimaps; metadata extraction yields only valid keys/printable values that occur in the query and removes all param[...] keys while other parameters are unchanged; validity predicates equal the gRPC character classes on all 256 bytes. Tied to the code through WebBridge.ServeHTTP and an export shim of parseMetadataQuery.",
     "level_note": "Trusted: Coq kernel, extraction, modelrun, Go harness; net/http header parsing and url.ParseQuery/Encode are exercised, not modelled; gws's own handshake checks are outside the property.",
     "design_ref": "DESIGN.md §3 C19",
@@ -180,7 +180,7 @@ PROPS["C10"] = {
                         "4": "unbound request answered with something other than plain text",
                         "5": "an error was rendered after the first response byte had been written"},
                 "neg": {"1": "content negotiation (Content-Type / Accept / SSE admission) differs from the rules"}},
-    "rule": "err: exhaustive matrix 16 non-OK codes x origins {router, stream creation, target status, target status after the first streamed message} x details {none, resolvable, type unknown to the target's descriptors} x explicit HTTP status {none, 418, 451} x request cancelled {no, yes}, + request-decode errors + a real deadline, through TranscodedHTTPBridge with a recorder; messages with quotes/newlines/non-ASCII. neg: random Content-Type / Accept header line sets x streaming kinds through StandardTranscoder.Bind",
+    "rule": "err: exhaustive matrix 16 non-OK codes x origins {router, stream creation, target status, target status after the first streamed message} x details {none, resolvable, type unknown to the target's descriptors} x explicit HTTP status {none, 418, 451} x request cancelled {no, yes}, + request-decode errors + a real deadline, through TranscodedHTTPBridge with a recorder; messages with quotes/newlines/non-ASCII. neg: random Content-Type / Accept header line sets x streaming kinds through StandardTranscoder.Bind; error origin 4: a unary call whose target sends the response message and then a non-OK status; the message pool includes texts with per cent signs",
     "level_text": "Coq theorems: the status table equals the canonical gRPC->HTTP mapping on all 17 codes (finite domain, forallb by vm_compute lifted with forallb_forall); for every error before the first byte the HTTP status is the explicit one or the table's, the body is never empty and always carries the message, a Status message iff bound and encodable, plain text otherwise (also when the details cannot be encoded); nothing is rendered after the first byte; the pre-repair fallback (empty body) is refuted; negotiation: 415 iff a Content-Type is given and none is supported, Accept picks the response type, SSE only for server-streaming non-client-streaming methods. Tied to the code by the exhaustive matrix.",
     "level_note": "Trusted: Coq kernel, extraction, modelrun, Go harness; grpc-gateway HTTPStatusFromCode, mime.ParseMediaType, protojson are exercised, not modelled.",
     "design_ref": "DESIGN.md §3 C10",
@@ -217,7 +217,7 @@ PROPS["C11"] = {
                 "stress_service": {"1": "free-running stress: a lookup was routed to a target after its watcher's Close had returned, or the name could not be watched again", "2": "free-running stress: a route present in every description of a target that is being re-described was momentarily unroutable (flicker)", "3": "free-running stress: a lookup returned target / service / method / binding that are not parts of one description (mixture)"},
                 "schedules": {"1": "a lookup issued after Close had returned was routed to the removed target (its routes came back through an update that was in flight)",
                               "2": "re-Watch refused after Close returned, or accepted while still watched"}},
-    "rule": "10 thread sets (pattern and service router): update-vs-close with lookups, two updates of one target with lookups, close + re-watch + update through the new watcher + stale update through the old one, two targets with overlapping services, double close; EVERY interleaving at the granularity of the verif yield points is enumerated by the extracted model and replayed on the real routers (goroutines parked at the yield points); quick tier samples evenly when a set has more than 70 schedules",
+    "rule": "10 thread sets (pattern and service router): update-vs-close with lookups, two updates of one target with lookups, close + re-watch + update through the new watcher + stale update through the old one, two targets with overlapping services, double close; EVERY interleaving at the granularity of the verif yield points is enumerated by the extracted model and replayed on the real routers (goroutines parked at the yield points); quick tier samples evenly when a set has more than 70 schedules; inflight: an UpdateDesc parked at its 1st / 2nd / 3rd yield point, Close called and given 60 ms to return if it can, the update released: afterwards the removed target must not be routable (both routers)",
     "level_text": "Coq theorems over all thread sets and all interleavings of the LTS: once Close(w) has executed its removal, no table entry applied through w exists or ever appears again (removed targets never come back), so no later lookup is routed to it - proved for the pattern router AND for the service router (two-phase updateRoutes under the table mutex, removal with hand-over: invariant over table entries, claim lists and recorded listings, with their watcher tags); a name is re-watchable exactly after the removal; an update step never drops a route that is in its new description (no flicker); lookups read one atomically stored (target, description) pair. The pre-repair protocol (closed check outside the mutation) is refuted by a witness schedule. Tied to the code by replaying every model schedule on the real routers via the yield hooks and comparing every lookup.",
     "level_note": "Trusted: Coq kernel, extraction, modelrun, Go replayer (goroutine parking via routing.VerifYieldHook, tag verif). Atomicity of atomic.Pointer, sync.Map and sync.Mutex is Go's. Hook commits in /repo are add-only.",
     "design_ref": "DESIGN.md §3 C11, appendix A.2",
@@ -235,7 +235,7 @@ PROPS["C15"] = {
                           "5": "forced schedule: a resolve-now request that began after the last contract change and returned was lost (left alone until nothing moves, the last delivered update is not the final contract)",
                           "6": "forced schedule: a goroutine did not arrive at the yield point where the model's schedule puts it (the poller loop / ResolveNow no longer have the modelled shape)",
                           "7": "forced schedule: the process died while this schedule was being forced on the resolver (a panic or a deadlock under this interleaving; the crash log is in the replay)"}},
-    "rule": "seq: histories of 1-6 polls over a scripted reflection server whose contract (descriptor bytes and/or service list) changes between polls (4 versions), with protocol-version availability {both, v1 only, v1alpha only, neither}, failures at every protocol step (stream open, ListServices, k-th file response; error or timeout), 5 answering policies; polls driven by PollManually + ResolveNow; the flat callback sequence is compared. race: ResolveNow issued during a poll held open by gating the fake stream; Close during an in-flight poll; random sequences (4-12 actions) of contract changes, ResolveNow calls, gate closings / openings and pauses with the end-to-end oracle 'a request issued after the last change delivers the final contract'. sched: every maximal schedule of the concurrent poller model for 7 configurations (1-3 ResolveNow callers x 0-2 contract changes x Close) is enumerated by the extracted model and forced on the real resolver through the yield points compiled in under the tag verif (poller parked at poll:start / before-select / woken / rearmed, callers parked between loading and calling the notify function); delivered updates, number of polls and Close's return are compared with the model, and the run is then left alone until nothing moves to judge 'never lost' end to end; quick tier samples evenly + at random; non-trivial = history with >= 3 polls",
+    "rule": "seq: histories of 1-6 polls over a scripted reflection server whose contract (descriptor bytes and/or service list) changes between polls (4 versions), with protocol-version availability {both, v1 only, v1alpha only, neither}, failures at every protocol step (stream open, ListServices, k-th file response; error or timeout), 5 answering policies; polls driven by PollManually + ResolveNow; the flat callback sequence is compared. race: ResolveNow issued during a poll held open by gating the fake stream; Close during an in-flight poll; random sequences (4-12 actions) of contract changes, ResolveNow calls, gate closings / openings and pauses with the end-to-end oracle 'a request issued after the last change delivers the final contract'. sched: every maximal schedule of the concurrent poller model for 7 configurations (1-3 ResolveNow callers x 0-2 contract changes x Close) is enumerated by the extracted model and forced on the real resolver through the yield points compiled in under the tag verif (poller parked at poll:start / before-select / woken / rearmed, callers parked between loading and calling the notify function); delivered updates, number of polls and Close's return are compared with the model, and the run is then left alone until nothing moves to judge 'never lost' end to end; quick tier samples evenly + at random; non-trivial = history with >= 3 polls; in half of the histories the scripted server lists the files of its answers in reverse order on every other poll (same contract, not a change)",
     "level_text": "Coq theorems over ALL histories of poll outcomes: the callback sequence is exactly - an update after the first success and after each success whose contract differs from the LAST DELIVERED one, an error (only) after each failure, nothing otherwise; the remembered fingerprint changes only together with an update (so a failure never loses or fakes a change); the result does not depend on the remembered protocol-version priority. Races: the poller loop with any number of ResolveNow callers, a closer and a changing target is an LTS (Model/ResolverConc.v) with theorems over every interleaving - a returned resolve-now request after whose beginning no poll has started leaves the waiting poller's resolve-now branch enabled (never lost, also when it arrives during a poll), the next poll reads the contract afresh, no callback after Close returned; the loop that re-arms before every wait is refuted by a witness schedule. Tied to the code by REPLAYING THE MODEL'S SCHEDULES on the real resolver (yield hooks in reflection/resolver.go, tag verif), besides gated runs and random sequences of changes / requests / held-open polls.",
     "level_note": "Trusted: Coq kernel, extraction, modelrun, Go harness (scripted reflection server, quiescence detection). Assumed: equal SHA-256 fingerprints mean equal contracts (fp_faithful); the poll timer is not modelled.",
     "design_ref": "DESIGN.md §3 C15",
@@ -249,7 +249,7 @@ PROPS["C05"] = {
                             "2": "a description was delivered although a listed service's definition, a dependency, or a message type one of its methods refers to could not be obtained (partial description instead of an error)",
                             "3": "a conformant server with a complete, consistent descriptor set got an error report instead of a description"},
                 "versions": PROPS["C15"]["reasons"]["seq"]},
-    "rule": "resolve: fixed dependency shapes (chain, diamond, re-sent-file graph, fan-out, deep chain, dense DAG) under every policy first, then random descriptor universes (1-6 files, chain/diamond dependency DAGs, 0-2 services per file, 0-2 methods with message types from the file or a dependency, 0-2 bindings of every pattern kind incl. custom verbs) x listed-name lists (subset, duplicates, invalid names, administrative grpc.* names, shuffled) x 8 answering policies (closure, only requested file, requested file + direct imports (later rounds re-send files the client has), grpc-go style minus already sent, dependencies first, duplicated, and two NON-conformant ones: wrong file for a symbol, a dependency never provided) x recursion limits; versions: protocol-version availability histories (shared with C15); non-trivial = universe with more than one file",
+    "rule": "resolve: fixed dependency shapes (chain, diamond, re-sent-file graph, fan-out, deep chain, dense DAG) under every policy first, then random descriptor universes (1-6 files, chain/diamond dependency DAGs, 0-2 services per file, 0-2 methods with message types from the file or a dependency, 0-2 bindings of every pattern kind incl. custom verbs) x listed-name lists (subset, duplicates, invalid names, administrative grpc.* names, shuffled) x 8 answering policies (closure, only requested file, requested file + direct imports (later rounds re-send files the client has), grpc-go style minus already sent, dependencies first, duplicated, and two NON-conformant ones: wrong file for a symbol, a dependency never provided) x recursion limits; versions: protocol-version availability histories (shared with C15); non-trivial = universe with more than one file; half of the fixed-shape runs and 30 % of the random universes keep all services in the root file (deeper files are then reached by file name only)",
     "level_text": "Coq theorems for EVERY server (answering functions are universally quantified): whatever the resolver collects has every file name once (de-duplication) and, when the dependency search returns a set, every dependency of every collected file is in it - the precondition of protodesc.NewFiles; service-name filtering yields exactly the valid, first-occurrence, non-administrative listed names; the pre-repair de-duplication (none) is refuted. CONVERSELY (ReflCompleteProofs.v) against every conformant server - answers made of its own files, none ranked above the requested one in the acyclic dependency graph, the requested file present unless already sent on the stream - and a recursion limit above the graph's depth, the search succeeds and the description lists exactly the requested services. Tied to the code by running the real resolver against a scripted reflection server with conformant and non-conformant policies.",
     "level_note": "Trusted: Coq kernel, extraction, modelrun, Go harness (scripted reflection server); protodesc.NewFiles' own validation beyond name-uniqueness and dependency presence; proto option parsing (google.api.http extension).",
     "design_ref": "DESIGN.md §3 C05",
